@@ -19,12 +19,17 @@ type Tape struct {
 	Over    map[string]int // explicit overrides: "stream#index" -> value
 	streams map[string]*stream
 	Draws   int
+	// ZeroPrefixes: streams whose name starts with one of these always answer 0 (the first choice)
+	ZeroPrefixes []string
 }
 
 type stream struct {
 	rng *rand.Rand
 	idx int
 }
+
+// GroupStreams are the tape streams that schedule groups of concurrent requests.
+var GroupStreams = []string{"race:", "pair:", "devrace:", "reads:", "callbacks:", "sibling"}
 
 func NewTape(seed uint64, over map[string]int) *Tape {
 	return &Tape{Seed: seed, Over: over, streams: map[string]*stream{}}
@@ -55,6 +60,11 @@ func (t *Tape) Choose(streamName string, n int) int {
 	s.idx++
 	t.Draws++
 	v := s.rng.IntN(n) // always draw so that overrides do not shift the stream
+	for _, p := range t.ZeroPrefixes {
+		if len(streamName) >= len(p) && streamName[:len(p)] == p {
+			return 0
+		}
+	}
 	if t.Over != nil {
 		if o, ok := t.Over[key]; ok {
 			if o < 0 {
